@@ -1,6 +1,8 @@
 import Proofs.C07
 import Proofs.C07Draw
 import Proofs.TieAccept
+import Proofs.TieLoopTail
+import Proofs.SrcC07
 #print axioms PV.Proofs.C07.surface_worse
 #print axioms PV.Proofs.C07.better_accepted
 #print axioms PV.Proofs.C07.none_rejected
@@ -37,3 +39,10 @@ import Proofs.TieAccept
 #print axioms PV.Proofs.Tie.energy_surface_tie
 #print axioms PV.Proofs.Tie.test_acceptance_tie
 #print axioms PV.Proofs.Tie.accept_score_tie
+#print axioms PV.Proofs.Tie.declared_translated_looptail
+#print axioms PV.Proofs.Tie.loop_tail_tie
+#print axioms PV.Proofs.Tie.loop_tail_frame
+#print axioms PV.Proofs.Source.C07_source_better
+#print axioms PV.Proofs.Source.C07_source_none
+#print axioms PV.Proofs.Source.C07_source_worse_iff
+#print axioms PV.Proofs.Source.C07_source_zero
